@@ -45,7 +45,7 @@ func keyEmuScenarios(big, withMapping bool) []*Desc {
 		if withMapping {
 			d.Name = "keyemu-map-" + variant
 			d.Mappings = append(d.Mappings, MapDesc{Name: "M1", Keys: km{K1: {61, 0}}})
-			acts(d, MU, "mapping_up", MD, "mapping_down", OU, "octave_up", PA, "panic")
+			acts(d, MU, "mapping_up", MD, "mapping_down", OU, "octave_up", PA, "panic", LE, "cc_learning")
 			d.OctLo, d.OctHi = 0, 1
 		} else {
 			acts(d, OU, "octave_up", OD, "octave_down", SU, "semitone_up", CU, "channel_up")
